@@ -257,6 +257,7 @@ func runC14(c *Ctx) {
 	c14R6(c)
 	c14R3(c)
 	c14R5(c)
+	c07R6As(c, c.R.Rule("R7", "K3 (= C07.R6) rejected means untouched: pipeline.Service.UpdateDLQ range-checks the new settings before it stores them on the live instance", 4))
 }
 
 // c14R5: everything an orchestrator method does to the services between NewTransaction and
@@ -447,6 +448,51 @@ func c14R3(c *Ctx) {
 			}
 		}
 	}
+	// what is put back must be the old value: a list is never shrunk in place (slices.Delete / copy on
+	// the live slice shifts the shared backing array, so the saved header restores a corrupted list)
+	for _, rel := range []string{pPipe, pConn, pProc} {
+		p := c.W.Pkg(rel)
+		if p == nil {
+			continue
+		}
+		sp := c.W.SSA[p.Types]
+		instT := c.W.LookupType(rel, "Instance")
+		for _, fn := range c.W.AllFuncs(sp) {
+			for _, b := range fn.Blocks {
+				for _, in := range b.Instrs {
+					call, ok := in.(*ssa.Call)
+					if !ok || len(call.Call.Args) == 0 {
+						continue
+					}
+					name := ""
+					if callee := call.Call.StaticCallee(); callee != nil && callee.Pkg != nil && callee.Pkg.Pkg.Path() == "slices" {
+						name = callee.Name()
+					} else if callee != nil && callee.Origin() != nil && callee.Origin().Pkg != nil && callee.Origin().Pkg.Pkg.Path() == "slices" {
+						name = callee.Origin().Name()
+					}
+					if bi, ok := call.Call.Value.(*ssa.Builtin); ok && bi.Name() == "copy" {
+						name = "copy"
+					}
+					if !(strings.HasPrefix(name, "Delete") || name == "copy" || strings.HasPrefix(name, "Insert")) {
+						continue
+					}
+					a0 := kit.Unwrap(call.Call.Args[0])
+					if sl, ok := a0.(*ssa.Slice); ok {
+						a0 = sl.X
+					}
+					base, f := kit.FieldBase(a0)
+					if f == nil || base == nil || instT == nil {
+						continue
+					}
+					if pt, ok := base.Type().Underlying().(*types.Pointer); !ok || !types.Identical(pt.Elem(), instT) {
+						continue
+					}
+					n++
+					c.R.Fail(r, kit.FuncKey(fn)+": "+f.Name()+" is not modified in place", c.Pos(call.Pos()), kit.FuncKey(fn)+" shrinks/shifts Instance."+f.Name()+" in place ("+name+" on the live slice): the slice header saved for the failed-persist restore shares that backing array, so a failed write restores an already-shifted list (memory != store, dangling and lost references)")
+				}
+			}
+		}
+	}
 	if n == 0 {
 		c.R.Fail(r, "service methods that change an instance before persisting it", "", "none found (store.Set anchors moved?)")
 	}
@@ -541,7 +587,10 @@ func c14R4(c *Ctx) {
 }
 
 func c14R6(c *Ctx) {
-	r := c.R.Rule("R6", "K6 name index follows renames: pipeline.Service.Update frees the OLD name (read before the config is replaced) and reserves the new one", 2)
+	c14R6As(c, c.R.Rule("R6", "K6 name index follows renames: pipeline.Service.Update frees the OLD name (read before the config is replaced) and reserves the new one", 2))
+}
+
+func c14R6As(c *Ctx, r string) {
 	fn := c.SSA(r, pPipe, "(*Service).Update")
 	if fn == nil {
 		return
